@@ -35,6 +35,7 @@ type Op struct {
 	Body    string            `json:"body,omitempty"`
 	Fail    []int             `json:"fail,omitempty"`
 	Slow    []int             `json:"slow,omitempty"`
+	Slower  []int             `json:"slower,omitempty"` // ... returns later still (four times the delay of Slow)
 	TaskOut map[string]string `json:"taskout,omitempty"`
 	// Real: START_ACTIVITY / STOP_ACTIVITY / GO_ERROR run the package's real transition object
 	// (NewStartActivityTransition ...) against a stand-in task manager that answers the transition
